@@ -157,7 +157,8 @@ class Session:
         def inner(*a, **k):
           return f(*a, **k)
         return inner
-      obj = deco(obj)   # an ordinary pass-through decorator between gin and the function
+      for _ in range(int(op['_decorated'])):   # one or more ordinary pass-through decorators under gin
+        obj = deco(obj)
     return obj
 
   # ---------------------------------------------------------------- operations
@@ -172,6 +173,8 @@ class Session:
       kw['allowlist'] = op.get('_allow_arg', op['allow'])
     if op.get('_deny_arg', op['deny']):
       kw['denylist'] = op.get('_deny_arg', op['deny'])
+    if op.get('_deny_iter'):
+      kw['denylist'] = iter(list(op['deny']))
     name = op.get('_name_arg')
     if api == 'configurable':
       returned = gin.configurable(name, **kw)(obj) if (name is not None or kw) else gin.configurable(obj)
@@ -536,14 +539,15 @@ class Session:
     base = self.tmpdir(add_path=False)
     name = op['_name']
     locdirs = {}
-    for lab in op['prefixes']:
+    for k, lab in enumerate(op['prefixes']):
       if lab == '':
         locdirs[lab] = ''
         continue
       d = os.path.join(base, lab)
       os.makedirs(d, exist_ok=True)
       locdirs[lab] = d
-      if d not in cfg._LOCATION_PREFIXES:  # pylint: disable=protected-access
+      # a label that occurs a second time is a second registration of the same location
+      if d not in cfg._LOCATION_PREFIXES or lab in op['prefixes'][:k]:  # pylint: disable=protected-access
         cfg.add_config_file_search_path(d)
     if op['abs']:
       name = os.path.join(base, 'absdir', name)
